@@ -16,6 +16,7 @@ EXPLANATION = (
     "copy delegate to the inner LinearScale, so the affine-map rules of C12 (AFFINE, INVERT, ENDPOINT-EXACT, RESCALE, "
     "DOMAIN-FRESH, REPORTS — re-run here) transfer.  C15.TZ = C18.TZAPI over scale.py and d3_time.py.  The 1 ms "
     "round-trip bound is numeric and not decided."
+    '  The default inner scale is built unclamped (C15.DELEGATE).'
 )
 ASSUMPTIONS = ["naive datetime subtraction / timedelta arithmetic is exact to the microsecond"]
 
